@@ -35,9 +35,10 @@ def swc_to_jaxley(
             `max_branch_len`.
         num_lines: Number of lines of the SWC file to read.
     """
-    content = np.loadtxt(fname)[:num_lines]
+    # `ndmin=2` such that a file with a single row (a point neuron) is also a matrix.
+    content = np.loadtxt(fname, ndmin=2)[:num_lines]
     types = content[:, 1]
-    is_single_point_soma = types[0] == 1 and types[1] != 1
+    is_single_point_soma = types[0] == 1 and (len(types) == 1 or types[1] != 1)
 
     if is_single_point_soma:
         # Warn here, but the conversion of the length happens in `_compute_pathlengths`.
